@@ -10,10 +10,26 @@
 EXTENDS Hash, Abi, Json
 CONSTANTS Kind,          \* "gnu" | "sysv"
           Encs,          \* subset of 1..4 : <<class, little>>
-          Buckets, Blooms, Shifts, SymOffs, MaxNames
+          Buckets, Blooms, Shifts, SymOffs, MaxNames,
+          PoolSel        \* "base" | "boundary" : which pool of names
 
 EncOf(k) == CASE k = 1 -> <<32, TRUE>> [] k = 2 -> <<32, FALSE>> [] k = 3 -> <<64, TRUE>> [] k = 4 -> <<64, FALSE>>
-Pool == << <<>>, <<97>>, <<98>>, <<97, 66>>, <<98, 33>>, <<97, 97>>, <<98, 81>>, <<195, 40>>, <<122, 122, 122, 122, 122, 122, 122, 122>> >>
+\* names whose hashes sit at the boundaries of the lookup's arithmetic (found by a meet-in-the-middle search outside
+\* TLC; that they have these hashes is asserted below).  GNU: hash 0 (twice), 1, 2^32-1, 2^32-2 - chain words 0 / 1
+\* and all-ones.  SysV: the state before the last byte is 0xfffffff resp. 0xffffff1, so that (h << 4) + c carries out
+\* of 32 bits for the last byte 'z', '!' resp. 0xf0 and just does not for 0xef.
+Mg(x) == <<109, 103, 101, 110, 97, 110, 97, x>>
+CarryA == <<96, 76, 60, 60, 59, 67, 105, 47>>
+CarryB == <<123, 44, 58, 89, 104, 117, 48, 33>>
+PoolBoundary == IF Kind = "gnu"
+                THEN << <<>>, Mg(100), <<97, 103, 109, 116, 97, 118, 100, 119>>, Mg(101), Mg(99), Mg(98), <<97>> >>
+                ELSE << <<>>, Append(CarryA, 122), Append(CarryA, 33), Append(CarryB, 240), Append(CarryB, 239), <<97, 97>> >>
+ASSUME Kind = "gnu" => /\ GnuHash(Mg(100)) = W4(0) /\ GnuHash(<<97, 103, 109, 116, 97, 118, 100, 119>>) = W4(0)
+                       /\ GnuHash(Mg(101)) = W4(1) /\ GnuHash(Mg(99)) = <<255, 255, 255, 255>> /\ GnuHash(Mg(98)) = <<254, 255, 255, 255>>
+ASSUME Kind = "sysv" => /\ SysvHash(CarryA) = <<255, 255, 255, 15>> /\ SysvHash(CarryB) = <<241, 255, 255, 15>>
+                        /\ \A i \in 2..5 : SysvHash(PoolBoundary[i]) = ElfHashRef(PoolBoundary[i])
+PoolBase == << <<>>, <<97>>, <<98>>, <<97, 66>>, <<98, 33>>, <<97, 97>>, <<98, 81>>, <<195, 40>>, <<122, 122, 122, 122, 122, 122, 122, 122>> >>
+Pool == IF PoolSel = "boundary" THEN PoolBoundary ELSE PoolBase
 NP == Len(Pool)
 
 RECURSIVE CatAll(_, _)
